@@ -28,6 +28,8 @@ use Step::*;
 
 /// a legal 250-byte file name: `<name>.copia-tmp` exceeds NAME_MAX, so staging a copy of it fails
 const LONG_NAME: &str = "nnnnnnnnnnnnnnnnnnnnnnnnnnnnnnnnnnnnnnnnnnnnnnnnnnnnnnnnnnnnnnnnnnnnnnnnnnnnnnnnnnnnnnnnnnnnnnnnnnnnnnnnnnnnnnnnnnnnnnnnnnnnnnnnnnnnnnnnnnnnnnnnnnnnnnnnnnnnnnnnnnnnnnnnnnnnnnnnnnnnnnnnnnnnnnnnnnnnnnnnnnnnnnnnnnnnnnnnnnnnnnnnnnnnnnnnnnnnnnnnnnnnnnnnnn";
+/// a legal 245-byte file name: `<name>.copia-tmp` is exactly 255 bytes, the longest name a directory entry can have
+const NAME_245: &str = "mmmmmmmmmmmmmmmmmmmmmmmmmmmmmmmmmmmmmmmmmmmmmmmmmmmmmmmmmmmmmmmmmmmmmmmmmmmmmmmmmmmmmmmmmmmmmmmmmmmmmmmmmmmmmmmmmmmmmmmmmmmmmmmmmmmmmmmmmmmmmmmmmmmmmmmmmmmmmmmmmmmmmmmmmmmmmmmmmmmmmmmmmmmmmmmmmmmmmmmmmmmmmmmmmmmmmmmmmmmmmmmmmmmmmmmmmmmmmmmmmmmmm";
 pub fn scenarios() -> Vec<(&'static str, Vec<Step>)> {
     vec![
         ("create-propagate-modify", vec![W(0, "f", "v1"), S, W(0, "f", "v2"), S, W(1, "f", "v3"), S, Dry]),
@@ -60,6 +62,12 @@ pub fn scenarios() -> Vec<(&'static str, Vec<Step>)> {
         ("file-over-a-leftover-empty-directory", vec![W(0, "d/f", "v1"), S, D(0, "d/f"), S, ReplaceDirByFile(0, "d", "a file named d"), S, S]),
         ("equal-size-equal-old-mtime-one-sided-edit (C18: only content decides)", vec![W(0, "f", "base"), S, W(1, "f", "edit"), NormMtime, S, S]),
         ("equal-size-equal-old-mtime-first-run (C18: only content decides)", vec![W(0, "f", "aaaa"), W(1, "f", "bbbb"), W(0, "g", "same"), W(1, "g", "same"), NormMtime, S, S]),
+        ("divergent-edit-of-a-file-whose-name-extends-a-directory-name (notes/ next to notes.txt)", vec![W(0, "notes/a", "a"), W(0, "notes.txt", "base"), S, W(0, "notes.txt", "edit-on-A"), W(1, "notes.txt", "edit-on-B"), W(0, "notes/new", "one-sided"), S, S]),
+        ("divergent-edit-next-to-a-directory (src/ next to src-old)", vec![W(0, "src/x", "x"), W(0, "src-old", "base"), S, W(0, "src-old", "A-version"), W(1, "src-old", "B-version"), D(1, "src/x"), S, S]),
+        ("name-of-exactly-245-bytes", vec![W(0, NAME_245, "v1"), S, W(1, NAME_245, "v2-from-B"), S, S]),
+        ("archive-without-format-version", vec![W(0, "f", "v1"), W(0, "keep", "k"), S, D(1, "f"), W(1, "keep", "changed"), ArchiveFault(8), S]),
+        ("archive-without-epoch", vec![W(0, "f", "v1"), S, D(1, "f"), ArchiveFault(9), S]),
+        ("archive-without-host-id", vec![W(0, "f", "v1"), S, D(0, "f"), ArchiveFault(10), S]),
         ("archive-only-bak", vec![W(0, "keep", "k1"), S, W(0, "x", "x1"), S, D(1, "keep"), ArchiveFault(5), S]),
         ("equal-size-equal-mtime-edit (C06 mtime independence)", vec![W(0, "f", "aaaa"), W(0, "g", "keep"), S, W(0, "f", "bbbb"), NormMtime, S, S, Dry]),
         ("equal-size-equal-mtime-conflict (C06 mtime independence)", vec![W(0, "f", "base"), S, W(0, "f", "aaa1"), W(1, "f", "bbb2"), NormMtime, S, S]),
@@ -163,6 +171,7 @@ pub fn run_history_all(name: &str, steps: &[Step]) -> Vec<String> {
                         4 => { let _ = std::fs::write(&a, String::from_utf8_lossy(&bytes).replace("\"format_version\": 1", "\"format_version\": 2")); }
                         6 => { let _ = std::fs::write(&a, String::from_utf8_lossy(&bytes).replace("\"format_version\": 1", "\"format_version\": 0")); }
                         7 => { let _ = std::fs::write(&a, String::from_utf8_lossy(&bytes).replace("\"format_version\": 1", "\"format_version\": 4294967295")); }
+                        8 | 9 | 10 => { let key = ["\"format_version\"", "\"epoch\"", "\"host_id\""][(*k - 8) as usize]; let t: String = String::from_utf8_lossy(&bytes).lines().filter(|l| !l.trim_start().starts_with(key)).collect::<Vec<_>>().join("\n"); let _ = std::fs::write(&a, t); }
                         _ => { let _ = std::fs::remove_file(&a); } // only .bak (and maybe .tmp) left behind
                     }
                 }
@@ -398,6 +407,7 @@ fn crash_setups() -> Vec<(&'static str, Vec<Step>, Vec<Step>)> {
         ("mixed-after-a-first-sync",
          vec![W(0, "p", "p1"), W(0, "m", "m1"), W(0, "del", "d1"), W(0, "c", "base"), W(0, "dm", "dm-base"), W(0, "sub/deep", "deep1"), S],
          vec![W(0, "new", "brand-new-file"), W(0, "m", "m2-modified-on-A"), W(1, "p", "p2-modified-on-B"), D(0, "del"), W(0, "c", "aaa-conflict"), W(1, "c", "bbb-conflict"), D(0, "dm"), W(1, "dm", "dm-changed-on-B"), W(1, "sub/deep", "deep2-from-B")]),
+        ("a-name-of-exactly-245-bytes", vec![W(0, NAME_245, "first version of the long-named file"), W(0, "o", "o1"), S], vec![W(0, NAME_245, "second version, modified on A"), W(1, "fresh", "created on B")]),
         ("first-run-without-archive", vec![], vec![W(0, "x", "x1"), W(1, "y", "y1"), W(0, "z", "za-version"), W(1, "z", "zb-version"), W(0, "d/e", "e1")]),
     ]
 }
